@@ -25,9 +25,11 @@ class Script(Session):
         self.sizes = sizes or {}
         self.pinned = pinned or {}
         self.native = native
+        self.native_out = native
+        self.native_desc = None
         self.inputs = {}
         self.input_order = []
-        self.known = []          # names of goals that are recorded known findings (carve-outs)
+        self.known_ids = []
         self.notes = []
         self.replay_verdicts = []
 
@@ -131,6 +133,15 @@ class Script(Session):
         v = "violated" if r == z3.sat else ("holds" if r == z3.unsat else "unknown")
         self.replay_verdicts.append((name, v))
         return v
+
+    def known(self, kid, name, goal, carve):
+        """clause covered by a recorded known finding `kid`: the clause must hold OUTSIDE the carve-out (proved here);
+        inside it the recorded witness is replayed natively by the check driver."""
+        r = self.holds(name + " [outside carve-out " + kid + "]", bor(carve, goal))
+        full = self.holds(name, goal)
+        if full is not None and hasattr(full, "status"):
+            full.known_id = kid
+        return r
 
     # -- model -> concrete input ----------------------------------------------
     def dump_inputs(self, model):
